@@ -16,6 +16,7 @@ import (
 	"runtime/debug"
 	"strings"
 	"sync"
+	"syscall"
 	"time"
 )
 
@@ -207,9 +208,12 @@ func RunPool(self string, args []string, jobs []json.RawMessage, n int, memKB in
 							res.Outcome, res.Msg, res.Out = rl.Outcome, rl.Msg, rl.Out
 						}
 					case <-timer.C:
+						// ask the Go runtime for a goroutine dump first, so the stalled frame is known
+						_ = c.cmd.Process.Signal(syscall.SIGQUIT)
+						time.Sleep(1500 * time.Millisecond)
 						c.kill()
+						res.Outcome, res.Msg = "hang", c.stderr.String()
 						c = nil
-						res.Outcome = "hang"
 					}
 				}
 				timer.Stop()
